@@ -611,8 +611,11 @@ def add_exotics(rng: random.Random, form: dict, kinds, p=0.5) -> list[str]:
             for j in range(rng.choice([1, 1, 2])):
                 row = {"type": f"{rng.choice(['select_one', 'select_multiple'])} {lst}", "name": _fresh(form, "srch"),
                        "appearance": rng.choice(["search('fruits')", "minimal search('fruits')", "search('fruits', 'matches', 'name_col', 'x')", "quick search('f')"])}
-                _translated(rng, row, "label", langs, delim, ["Fruit", "Pick"])
-                row.setdefault("label", "Fruit") if not any(k.startswith("label") for k in row) else None
+                if rng.random() < 0.25:
+                    row["hint"] = "Type to search"          # a search() select with a hint and no label of its own: its items keep their labels
+                else:
+                    _translated(rng, row, "label", langs, delim, ["Fruit", "Pick"])
+                    row.setdefault("label", "Fruit") if not any(k.startswith("label") for k in row) else None
                 survey.append(row)
             if rng.random() < 0.4:
                 # a second search() list holding a row identical to one of the first list's plain rows; only one of the two lists needs itext
